@@ -12,72 +12,9 @@
    No proofs in this file; it is extracted to OCaml and run against the Go code. *)
 From Coq Require Import String.
 From Coq Require Import List Ascii Bool NArith ZArith Decimal.
+From V Require Export C11.Json.      (* byte strings, the JSON AST, the byte-level lexer / parser *)
 Import ListNotations.
-
-(* ---------- byte strings ----------
-   [str] is [list ascii] (not Coq's [string]: the extracted OCaml must not define a type called
-   "string", oracle/common.ml is appended to it).  Literals are written L"..." and are computed to an
-   explicit list of [Ascii] constructors at definition time. *)
-Definition str := list ascii.
-Notation "'L' s" := (ltac:(let v := eval compute in (String.list_ascii_of_string s%string) in exact v))
-  (at level 0, s at level 0, only parsing).
-
-Fixpoint list_eqb {A : Type} (eqb : A -> A -> bool) (l1 l2 : list A) : bool :=
-  match l1, l2 with
-  | [], [] => true
-  | x :: r, y :: s => eqb x y && list_eqb eqb r s
-  | _, _ => false
-  end.
-
-Definition str_eqb (a b : str) : bool := list_eqb Ascii.eqb a b.
-Declare Scope str_scope.
-Infix "=?" := str_eqb (at level 70) : str_scope.
-Delimit Scope str_scope with str.
 Open Scope str_scope.
-
-Fixpoint str_compare (a b : str) : comparison :=
-  match a, b with
-  | [], [] => Eq
-  | [], _ :: _ => Lt
-  | _ :: _, [] => Gt
-  | x :: a', y :: b' =>
-      match N.compare (N_of_ascii x) (N_of_ascii y) with
-      | Eq => str_compare a' b'
-      | c => c
-      end
-  end.
-
-(* ---------- JSON values as encoding/json (UseNumber) hands them over ---------- *)
-Inductive json : Type :=
-| JNull
-| JBool (b : bool)
-| JNum (s : str)                       (* the number literal, verbatim (json.Number) *)
-| JStr (s : str)                       (* bytes after unquoting *)
-| JArr (l : list json)
-| JObj (kv : list (str * json)).       (* members in document order, duplicates kept *)
-
-Fixpoint json_eqb (a b : json) {struct a} : bool :=
-  match a, b with
-  | JNull, JNull => true
-  | JBool x, JBool y => Bool.eqb x y
-  | JNum x, JNum y => x =? y
-  | JStr x, JStr y => x =? y
-  | JArr x, JArr y =>
-      (fix go (x y : list json) {struct x} : bool :=
-         match x, y with
-         | [], [] => true
-         | a' :: x', b' :: y' => json_eqb a' b' && go x' y'
-         | _, _ => false
-         end) x y
-  | JObj x, JObj y =>
-      (fix go (x y : list (str * json)) {struct x} : bool :=
-         match x, y with
-         | [], [] => true
-         | (k, a') :: x', (k', b') :: y' => (k =? k') && json_eqb a' b' && go x' y'
-         | _, _ => false
-         end) x y
-  | _, _ => false
-  end.
 
 (* ---------- json.Marshal of a value decoded into `any` ----------
    objects become map[string]any: the last duplicate of a key wins, keys are written sorted bytewise *)
@@ -142,8 +79,6 @@ Fixpoint multiset_eqb {A : Type} (eqb : A -> A -> bool) (l1 l2 : list A) : bool 
 Definition upper (c : ascii) : ascii :=
   let n := N_of_ascii c in
   if (97 <=? n)%N && (n <=? 122)%N then ascii_of_N (n - 32) else c.
-
-Definition is_byte (c : ascii) (n : N) : bool := (N_of_ascii c =? n)%N.
 
 Fixpoint fold_key (s : str) : str :=
   match s with
@@ -318,6 +253,10 @@ Definition dev_batch_window (inp : input) : bool :=
 
 Definition consistent (inp : input) : bool := grammar_ok inp && negb (dev_batch_window inp).
 
+(* HandleReader's view of the bytes of a request (Json.v): isBatch's verdict on them and the first JSON
+   value of the stream as the decoder reads it *)
+Definition input_of_bytes (bs : str) : input := mk_input (is_batch bs) (parse bs).
+
 Definition somes {A : Type} (l : list (option A)) : list A :=
   flat_map (fun o => match o with Some x => [x] | None => [] end) l.
 
@@ -419,6 +358,10 @@ Section Server.
       | Some j => handle_single ms j
       end.
 
+  (* HandleReader on the raw bytes *)
+  Definition handle_bytes (ms : methods) (bs : str) : list call * option json :=
+    handle ms (input_of_bytes bs).
+
   (* ================= the property text (JSON-RPC 2.0) ================= *)
   (* One entry (a single request or a batch member).  Where JSON-RPC 2.0 leaves the choice to the server
      the reading adopts juno's choice: which members an object has is decided as encoding/json decides it
@@ -458,6 +401,9 @@ Section Server.
     | Some (JArr es) => batch_out (map (spec_entry ms) es)
     | Some j => spec_entry ms j
     end.
+
+  Definition spec_bytes (ms : methods) (bs : str) : list call * option json :=
+    spec_handle ms (input_of_bytes bs).
 
   (* ---------- the situations in which the code leaves the specification ---------- *)
   (* a single request that is not an object (and not null) *)
